@@ -424,7 +424,8 @@ func equalMethodInputParam(typ *types.Named) *types.Type {
 		if b.Kind() != types.Bool {
 			continue
 		}
-		inputType := sig.Params().At(0).Type()
+		// any is an alias of interface{}: the parameter is the type the alias stands for
+		inputType := types.Unalias(sig.Params().At(0).Type())
 		return &inputType
 	}
 	return nil
